@@ -1049,9 +1049,12 @@ theorem body_ids (cfg : Cfg) (st : St) (pfx : Str) (c : Cmd) (hc : c ≠ .flushR
         rcases List.mem_append.mp hp with hp | hp
         · have := h.2 p hp; omega
         · simp only [List.mem_singleton] at hp; subst hp; exact Nat.le_refl _
+    have hsame : IdsOk (flushU { st with nextId := st.nextId + 1 }) :=
+      ⟨h.1, fun p hp => Nat.le_succ_of_le (h.2 p hp)⟩
     repeat' (first
       | with_reducible exact h
       | exact happ _
+      | exact hsame
       | split)
   | unregister name pw =>
     simp only [body]
@@ -1152,14 +1155,8 @@ def Cmd.capChanging : Cmd → Bool
   | .chanCapRemove .. => true
   | _ => false
 
-/-- `register` from a hostmask with fewer than three non-wildcard characters: `newUser()` has saved
-the still empty account, the named one exists in memory only -/
-def WildReg (st st' : St) : Prop :=
-  ∃ u, st'.users = st.users ++ [(st.nextId + 1, u)] ∧
-    st'.usaved = some { users := st.users ++ [(st.nextId + 1, { hashed := true })], nextId := st.nextId + 1 }
-
 def Shape (st : St) (c : Cmd) (r : St × Bool) : Prop :=
-  FileShape st r.1 ∨ WildReg st r.1 ∨ (c.capChanging = true ∧ r.2 = false ∧ r.1.usaved = st.usaved)
+  FileShape st r.1 ∨ (c.capChanging = true ∧ r.2 = false ∧ r.1.usaved = st.usaved)
 
 theorem shape_same (st : St) (c : Cmd) (b : Bool) : Shape st c (st, b) :=
   Or.inl (Or.inr ⟨rfl, userGrow_refl st⟩)
@@ -1191,7 +1188,7 @@ macro "shape_auto" hu:term : tactic => `(tactic|
     | exact Or.inl (Or.inr ⟨rfl, userGrow_of_users_eq rfl⟩)
     | (rcases finishSet_shape_cap with h | h
        · exact Or.inl h
-       · exact Or.inr (Or.inr ⟨rfl, h.1, h.2⟩)))))
+       · exact Or.inr ⟨rfl, h.1, h.2⟩))))
 
 theorem body_shape (cfg : Cfg) (st : St) (pfx : Str) (c : Cmd) (hc : c ≠ .flushReload) (hr : c ≠ .reload) :
     Shape st c (body cfg st pfx c) := by
@@ -1204,7 +1201,6 @@ theorem body_shape (cfg : Cfg) (st : St) (pfx : Str) (c : Cmd) (hc : c ≠ .flus
     repeat' (first
       | with_reducible exact shape_same _ _ _
       | exact Or.inl (Or.inl rfl)
-      | exact Or.inr (Or.inl ⟨_, rfl, rfl⟩)
       | split)
   | unregister name pw =>
     simp only [body]
